@@ -63,12 +63,22 @@ fn render_input(segs: &[Seg]) -> String {
     s
 }
 
-#[derive(Clone, Debug, PartialEq, Eq)]
+impl std::fmt::Debug for Block {
+    fn fmt(&self, f: &mut std::fmt::Formatter<'_>) -> std::fmt::Result {
+        write!(f, "Block {{ gcolor: {:?}, fcolor: {:?}, font: {:?}, text: {:?} }}", self.gcolor, self.fcolor, self.font, self.text)
+    }
+}
+
+#[derive(Clone, PartialEq, Eq)]
 struct Block {
     gcolor: String,
     fcolor: String,
+    /// font of the block when all its glyphs share one (for messages); see `fonts`
     font: char,
     text: String,
+    /// font in force for each character of `text`
+    #[allow(dead_code)]
+    fonts: Vec<char>,
 }
 
 /// the roff reader
@@ -123,23 +133,23 @@ fn read_roff(doc: &str, with_preamble: bool) -> Result<Vec<Block>, String> {
         let joined = raw.join("\n");
         // un-escape
         let mut text = String::new();
+        let mut fonts: Vec<char> = vec![];
         let mut font = 'R';
-        let mut fonts_used = std::collections::BTreeSet::new();
         let mut it = joined.chars().peekable();
         while let Some(c) = it.next() {
             if c != '\\' {
                 text.push(c);
-                fonts_used.insert(font);
+                fonts.push(font);
                 continue;
             }
             match it.next() {
                 Some('\\') => {
                     text.push('\\');
-                    fonts_used.insert(font);
+                    fonts.push(font);
                 }
                 Some('-') => {
                     text.push('-');
-                    fonts_used.insert(font);
+                    fonts.push(font);
                 }
                 Some('&') => {}
                 Some('f') => match it.next() {
@@ -152,7 +162,7 @@ fn read_roff(doc: &str, with_preamble: bool) -> Result<Vec<Block>, String> {
                         return Err(format!("unknown string escape \\*{a}"));
                     }
                     text.push('\'');
-                    fonts_used.insert(font);
+                    fonts.push(font);
                 }
                 other => return Err(format!("unknown escape \\{:?} in the text block {:?}", other, joined)),
             }
@@ -160,16 +170,16 @@ fn read_roff(doc: &str, with_preamble: bool) -> Result<Vec<Block>, String> {
         if font != 'R' {
             return Err(format!("text block {:?} does not return to the roman font", joined));
         }
-        if fonts_used.len() > 1 {
-            return Err(format!("text block {:?} mixes fonts", joined));
-        }
+        // the font of a newline is not observable: what counts is the font of every glyph
+        let glyph_fonts: std::collections::BTreeSet<char> = text.chars().zip(fonts.iter()).filter(|(c, _)| *c != '\n').map(|(_, f)| *f).collect();
         // a colour defined by .defcolor is reported by its hex value
         let resolve = |n: &String| defined.iter().rev().find(|(d, _)| d == n).map(|(_, h)| h.to_ascii_lowercase()).unwrap_or_else(|| n.clone());
         blocks.push(Block {
             gcolor: resolve(&colours[0].1),
             fcolor: resolve(&colours[1].1),
-            font: fonts_used.into_iter().next().unwrap_or('R'),
+            font: if glyph_fonts.len() == 1 { *glyph_fonts.iter().next().unwrap() } else if glyph_fonts.is_empty() { '*' } else { '?' },
             text,
+            fonts,
         });
     }
     Ok(blocks)
@@ -196,7 +206,7 @@ fn expected_blocks(segs: &[Seg]) -> Vec<Block> {
         } else {
             'R'
         };
-        let b = Block { gcolor: colour_name(s.fg), fcolor: colour_name(s.bg), font, text: s.text.clone() };
+        let b = Block { gcolor: colour_name(s.fg), fcolor: colour_name(s.bg), font, text: s.text.clone(), fonts: s.text.chars().map(|_| font).collect() };
         out.push(b);
     }
     merge(out)
@@ -208,7 +218,10 @@ fn merge(blocks: Vec<Block>) -> Vec<Block> {
     let mut out: Vec<Block> = vec![];
     for b in blocks {
         match out.last_mut() {
-            Some(l) if l.gcolor == b.gcolor && l.fcolor == b.fcolor && l.font == b.font => l.text.push_str(&b.text),
+            Some(l) if l.gcolor == b.gcolor && l.fcolor == b.fcolor && l.font == b.font => {
+                l.text.push_str(&b.text);
+                l.fonts.extend(b.fonts);
+            }
             _ => out.push(b),
         }
     }
@@ -221,7 +234,13 @@ fn check(segs: &[Seg]) -> Result<bool, String> {
     let want = expected_blocks(segs);
     for (what, text, pre) in [("to_roff()", doc.to_roff(), false), ("render()", doc.render(), true)] {
         let got = merge(read_roff(&text, pre).map_err(|e| format!("{what} of {}: {e}", esc(input.as_bytes())))?);
-        if got != want {
+        // compared character by character: colours exactly, the font of every glyph exactly, the font
+        // of a newline (which has no glyph) not at all - insensitive to where the renderer splits
+        // a segment and to whether a font span covers embedded newlines
+        let flat = |bs: &[Block]| -> Vec<(char, String, String, char)> {
+            bs.iter().flat_map(|b| b.text.chars().zip(b.fonts.iter()).map(|(c, f)| (c, b.gcolor.clone(), b.fcolor.clone(), if c == '\n' { '*' } else { *f })).collect::<Vec<_>>()).collect()
+        };
+        if flat(&got) != flat(&want) {
             let i = got.iter().zip(want.iter()).position(|(a, b)| a != b).unwrap_or(got.len().min(want.len()));
             return Err(format!(
                 "{what} of {}: segment #{i} reads back as {:?}, expected {:?} (document {:?})",
@@ -403,6 +422,7 @@ fn replay(sub: &str, case: &Value) -> Result<(), String> {
                 fcolor: b["fcolor"].as_str().unwrap_or("").to_owned(),
                 font: b["font"].as_str().unwrap_or("R").chars().next().unwrap_or('R'),
                 text: b["text"].as_str().unwrap_or("").to_owned(),
+                fonts: b["text"].as_str().unwrap_or("").chars().map(|_| b["font"].as_str().unwrap_or("R").chars().next().unwrap_or('R')).collect(),
             })
             .collect();
         let doc = anstyle_roff::to_roff(input).to_roff();
